@@ -165,9 +165,7 @@ pub fn string_literal(parts: &[SP]) -> Option<String> {
     });
     let has_brace = has_open
         || parts.iter().any(|x| matches!(x, SP::Lit(t) if t.contains('}')));
-    if needs_escape && has_brace {
-        return None;
-    }
+    let _ = (needs_escape, has_brace); // escapes and placeholders mix freely (D31 repaired)
     let mut s = String::from("\"");
     for part in parts {
         match part {
